@@ -120,20 +120,23 @@ theorem fbound_createTopic {s : St} (h : FBound s) (ph : Nat) (n : String) (k : 
           have := overflows_false_lt (w := U16) (by decide) (by have := (hb p.uid).2.2.1; unfold U16; omega) hg
           exact ⟨h.1, fun u => ⟨(hb u).1, (hb u).2.1, bump_le _ _ _ (fun v => (hb v).2.2.1) (by unfold U16 at this; omega) u, (hb u).2.2.2⟩⟩
 
-theorem fbound_createCft {s : St} (h : FBound s) (r : TopicRef) (n : String) : FBound (createCft s r n).1 := by
+theorem fbound_createCft {s : St} (h : FBound s) (r : TopicRef) (n : String) (v : Bool) :
+    FBound (createCft s r n v).1 := by
   unfold createCft
   split
   · exact h
   · rename_i p _
     split
     · exact h
-    · simp only
-      split
+    · split
       · exact h
-      · rename_i hg
-        have hb := h.2
-        have := overflows_false_lt (w := U16) (by decide) (by have := (hb p.uid).2.2.1; unfold U16; omega) hg
-        exact ⟨h.1, fun u => ⟨(hb u).1, (hb u).2.1, bump_le _ _ _ (fun v => (hb v).2.2.1) (by unfold U16 at this; omega) u, (hb u).2.2.2⟩⟩
+      · simp only
+        split
+        · exact h
+        · rename_i hg
+          have hb := h.2
+          have := overflows_false_lt (w := U16) (by decide) (by have := (hb p.uid).2.2.1; unfold U16; omega) hg
+          exact ⟨h.1, fun u => ⟨(hb u).1, (hb u).2.1, bump_le _ _ _ (fun v => (hb v).2.2.1) (by unfold U16 at this; omega) u, (hb u).2.2.2⟩⟩
 
 theorem fbound_createWriter {s : St} (h : FBound s) (r : GroupRef) (t : String) (m : Option Nat) (c : Bool) :
     FBound (createWriter s r t m c).1 := by
@@ -224,7 +227,7 @@ theorem good_step {s : St} (h : Good s) (op : Op) : Good (step s op).1 := by
   | deleteSub via r => exact ⟨inv_deleteSub hi via r, hd.of_cnt (cnt_deleteSub s via r) (np_deleteSub s via r)⟩
   | createTopic ph n k => exact ⟨inv_createTopic hi ph n k, fbound_createTopic hd ph n k⟩
   | deleteTopic via r => exact ⟨inv_deleteTopic hi via r, hd.of_cnt (cnt_deleteTopic s via r) (np_deleteTopic s via r)⟩
-  | createCft r n => exact ⟨inv_createCft hi r n, fbound_createCft hd r n⟩
+  | createCft r n v => exact ⟨inv_createCft hi r n v, fbound_createCft hd r n v⟩
   | deleteCft ph n => exact ⟨inv_deleteCft hi ph n, hd.of_cnt (cnt_deleteCft s ph n) (np_deleteCft s ph n)⟩
   | createWriter r t m c => exact ⟨inv_createWriter hi r t m c, fbound_createWriter hd r t m c⟩
   | deleteWriter via w => exact ⟨inv_deleteWriter hi via w, hd.of_cnt (cnt_deleteWriter s via w) (np_deleteWriter s via w)⟩
